@@ -1697,7 +1697,7 @@ def run(ctx: core.Ctx):
                 'multi channel): quantities of the remaining channels and pad_to against the REAL program; (4c) half of the random '
                 'trees outside the PF-14 class (no ArithmeticPT / ParallelChannelPT) with a scope entry literally called t '
                 '(a parameter / loop index / mapped name renamed to t, or an extra value) plus 32 hand-made time dependent '
-                'function templates next to a wait / level / index / count / mapping called t; (5) shared objects / query history: one atom OBJECT (every atomic class, hand-made and '
+                'function templates next to a wait / level / index / count / mapping called t; (4d, test level) ArithmeticPT over a multi channel atomic template with a per-channel scalar mapping mixing time dependent (affine in t) and constant entries, all four operators and both operand orders, plain / sequence / repetition / mapping: symbolic integral of every channel vs composite Simpson integration of the real program; (5) shared objects / query history: one atom OBJECT (every atomic class, hand-made and '
                 'random) used by several templates (two loops with different ranges, parallel channel, repetition, mapping, '
                 'sequence, arithmetic, stand-alone), integral / initial_values / final_values / pad_to queried in varying '
                 'orders and repeatedly, result dicts mutated by the caller in between: every answer must equal the answer of a '
